@@ -3,8 +3,9 @@
    the implementation produced [cout], the stored pairs, and (for a part of the cases) the
    outcome of evaluating [cin] with Expression.Execute on every pair.
 
-   code 1  the twin and the implementation disagree: the folded trees differ (positions and
-           texts exactly; float literals up to their VALUE, both texts read by Base/Flt.pf_parse),
+   code 1  the twin and the implementation disagree: the folded trees differ (node kinds,
+           operators, texts exactly; float literals up to their VALUE, both texts read by
+           Base/Flt.pf_parse; a difference in node positions only is reported as 99: counted),
            or the twin's typing predicate [wt] rejects an expression the checker accepted, or
            the evaluator twin and Execute disagree on the original expression;
    code 2  the implementation's own folded tree violates the property: on a pair on which the
@@ -36,40 +37,41 @@ Definition float_text_cmp (d d' : string) : nat :=
 Definition kw_eqb (a b : kvkw) : bool :=
   match a, b with KeyKW, KeyKW | ValueKW, ValueKW => true | _, _ => false end.
 
-Fixpoint expr_cmp (a b : expr) {struct a} : nat :=
+Fixpoint expr_cmp (sp : bool) (a b : expr) {struct a} : nat :=
+  let peq (p p' : nat) := if sp then Nat.eqb p p' else true in
   match a, b with
   | EBin p o l r, EBin p' o' l' r' =>
-      if Nat.eqb p p' && op_eqb o o' then worst2 (expr_cmp l l') (expr_cmp r r') else 1%nat
-  | EField p f, EField p' f' => if Nat.eqb p p' && kw_eqb f f' then 0%nat else 1%nat
-  | EStr p s, EStr p' s' => if Nat.eqb p p' && String.eqb s s' then 0%nat else 1%nat
-  | ENot p r, ENot p' r' => if Nat.eqb p p' then expr_cmp r r' else 1%nat
+      if peq p p' && op_eqb o o' then worst2 (expr_cmp sp l l') (expr_cmp sp r r') else 1%nat
+  | EField p f, EField p' f' => if peq p p' && kw_eqb f f' then 0%nat else 1%nat
+  | EStr p s, EStr p' s' => if peq p p' && String.eqb s s' then 0%nat else 1%nat
+  | ENot p r, ENot p' r' => if peq p p' then expr_cmp sp r r' else 1%nat
   | ECall p n args, ECall p' n' args' =>
-      if Nat.eqb p p' then
-        worst2 (expr_cmp n n')
+      if peq p p' then
+        worst2 (expr_cmp sp n n')
           ((fix go (xs ys : list expr) : nat :=
               match xs, ys with
               | [], [] => 0%nat
-              | x :: xs', y :: ys' => worst2 (expr_cmp x y) (go xs' ys')
+              | x :: xs', y :: ys' => worst2 (expr_cmp sp x y) (go xs' ys')
               | _, _ => 1%nat
               end) args args')
       else 1%nat
-  | EName p s, EName p' s' => if Nat.eqb p p' && String.eqb s s' then 0%nat else 1%nat
+  | EName p s, EName p' s' => if peq p p' && String.eqb s s' then 0%nat else 1%nat
   | ERef p nm d, ERef p' nm' d' =>
-      if Nat.eqb p p' && String.eqb nm nm' then expr_cmp d d' else 1%nat
-  | ENum p d, ENum p' d' => if Nat.eqb p p' && String.eqb d d' then 0%nat else 1%nat
-  | EFloat p d, EFloat p' d' => if Nat.eqb p p' then float_text_cmp d d' else 1%nat
-  | EBool p x, EBool p' x' => if Nat.eqb p p' && Bool.eqb x x' then 0%nat else 1%nat
+      if peq p p' && String.eqb nm nm' then expr_cmp sp d d' else 1%nat
+  | ENum p d, ENum p' d' => if peq p p' && String.eqb d d' then 0%nat else 1%nat
+  | EFloat p d, EFloat p' d' => if peq p p' then float_text_cmp d d' else 1%nat
+  | EBool p x, EBool p' x' => if peq p p' && Bool.eqb x x' then 0%nat else 1%nat
   | EList p l, EList p' l' =>
-      if Nat.eqb p p' then
+      if peq p p' then
         (fix go (xs ys : list expr) : nat :=
            match xs, ys with
            | [], [] => 0%nat
-           | x :: xs', y :: ys' => worst2 (expr_cmp x y) (go xs' ys')
+           | x :: xs', y :: ys' => worst2 (expr_cmp sp x y) (go xs' ys')
            | _, _ => 1%nat
            end) l l'
       else 1%nat
   | EAccess p l f, EAccess p' l' f' =>
-      if Nat.eqb p p' then worst2 (expr_cmp l l') (expr_cmp f f') else 1%nat
+      if peq p p' then worst2 (expr_cmp sp l l') (expr_cmp sp f f') else 1%nat
   | _, _ => 1%nat
   end.
 
@@ -126,7 +128,13 @@ Fixpoint zip3 (ps : list (bytes * bytes)) (os : list obs) : list (bytes * bytes 
   end.
 
 Definition corr_code (c : case) : nat :=
-  let t0 := expr_cmp (fold_prim (cin c)) (cout c) in
+  (* positions of the nodes are not an observable of C04 (folding moves error positions anyway):
+     trees equal up to positions are reported as 99 (counted, no alarm), other differences as 1 *)
+  let tw := fold_prim (cin c) in
+  let t0 := match expr_cmp false tw (cout c) with
+            | 1%nat => 1%nat
+            | tl => match expr_cmp true tw (cout c) with 1%nat => 99%nat | ts => worst2 tl ts end
+            end in
   let t := if Nat.eqb t0 1 &&
               (has_oom (cin c) || has_oom (optimize prim_fops re_oom pf_fmt_v (cin c)) || has_oom (cout c))
            then 99%nat else t0 in
